@@ -109,7 +109,7 @@ class NaiveBayes(BayesianNetwork):
         """
         if not obs_nodes_list:
             return set()
-        return set(obs_nodes_list) | set(self.dependent)
+        return set(obs_nodes_list) | {self.dependent}
 
     def active_trail_nodes(self, start, observed=None):
         """
@@ -137,7 +137,7 @@ class NaiveBayes(BayesianNetwork):
         """
 
         if observed and self.dependent in observed:
-            return set(start)
+            return {start}
         else:
             return set(self.nodes()) - set(observed if observed else [])
 
@@ -165,7 +165,7 @@ class NaiveBayes(BayesianNetwork):
         for variable in [variables] if isinstance(variables, str) else variables:
             if variable != self.dependent:
                 independencies.add_assertions(
-                    [variable, list(set(self.features) - set(variable)), self.dependent]
+                    [variable, list(set(self.features) - {variable}), self.dependent]
                 )
         return independencies
 
